@@ -82,6 +82,48 @@ fn d18_compaction_keeps_nulls_of_partially_null_columns() {
     }
 }
 
+/// D18b: the same for a dictionary-encoded string column that is absent from the second batch
+/// ingested into the same open buffer (NULL in the last 20 rows of the partition).
+#[test]
+fn d18b_compaction_keeps_nulls_of_partially_null_string_columns() {
+    let dir = tempfile::tempdir().unwrap();
+    let db = LocustDB::new(&options(&dir.path().join("db")));
+    let mut expected = vec![];
+    let rows = (0..20i64)
+        .map(|id| {
+            let s = format!("kind{}", id % 4);
+            expected.push(vec![Int(id), Str(Box::leak(s.clone().into_boxed_str()))]);
+            vec![("id".to_string(), AnyVal::Int(id)), ("s".to_string(), AnyVal::Str(s))]
+        })
+        .collect();
+    ingest(&db, "t", rows);
+    let rows = (20..40i64)
+        .map(|id| {
+            expected.push(vec![Int(id), Null]);
+            vec![("id".to_string(), AnyVal::Int(id))]
+        })
+        .collect();
+    ingest(&db, "t", rows);
+    let before = query(&db, "SELECT id, s FROM t ORDER BY id LIMIT 1000").unwrap();
+    assert_eq!(before, expected, "before flush");
+    for round in 0..2 {
+        db.force_flush();
+        let after = query(&db, "SELECT id, s FROM t ORDER BY id LIMIT 1000").unwrap();
+        println!("D18b after flush {round}: {:?}", &after[18..23]);
+        assert_eq!(after, expected, "D18b: table content changed across force_flush #{round}");
+        // a second batch so that the next flush merges two partitions
+        if round == 0 {
+            let rows = (40..50i64)
+                .map(|id| {
+                    expected.push(vec![Int(id), Str("late")]);
+                    vec![("id".to_string(), AnyVal::Int(id)), ("s".to_string(), AnyVal::Str("late".to_string()))]
+                })
+                .collect();
+            ingest(&db, "t", rows);
+        }
+    }
+}
+
 /// D19: LIMIT 0 with a single ORDER BY key on a partition with more than 0 rows.
 #[test]
 fn d19_order_by_limit_zero_returns() {
@@ -103,18 +145,20 @@ fn d19_order_by_limit_zero_returns() {
 fn d20_desc_top_n_over_nullable_strings() {
     let db = LocustDB::memory_only();
     let mut strs: Vec<Option<String>> = vec![];
-    let rows = (0..60i64)
+    // two batches into the same open buffer: `s` is present in the first 40 rows and absent in
+    // the last 20, which makes the buffer's `s` column a nullable string column
+    let rows = (0..40i64)
         .map(|i| {
-            let mut row = vec![("id".to_string(), AnyVal::Int(i))];
-            if i % 4 != 0 {
-                // high cardinality, so that the column is not dictionary encoded differently per run
-                let s = format!("s{:03}", (i * 17) % 60);
-                row.push(("s".to_string(), AnyVal::Str(s.clone())));
-                strs.push(Some(s));
-            } else {
-                strs.push(None);
-            }
-            row
+            let s = format!("s{:03}", (i * 17) % 40);
+            strs.push(Some(s.clone()));
+            vec![("id".to_string(), AnyVal::Int(i)), ("s".to_string(), AnyVal::Str(s))]
+        })
+        .collect();
+    ingest(&db, "t", rows);
+    let rows = (40..60i64)
+        .map(|i| {
+            strs.push(None);
+            vec![("id".to_string(), AnyVal::Int(i))]
         })
         .collect();
     ingest(&db, "t", rows);
